@@ -29,6 +29,9 @@ func checkC19(c *Check) {
 	e := newOrderEngine(p)
 	runOrder(c, "MAP-ORDER", e, func(f *ssa.Function) bool { return c19Scope(p, f) })
 	nondetSources(c, "NONDET-SOURCE", func(f *ssa.Function) bool { return c19Scope(p, f) })
+	// same model, same output within one process: a generator that returns the
+	// content of a buffer kept in a long-lived view must start from an empty buffer
+	c.Counts["buffer_returning_call_sites"] = freshBuffers(c, "FRESH-BUFFER", func(f *ssa.Function) bool { return c19Scope(p, f) })
 }
 
 // nondetSources: calls that read the clock, random numbers, process identity,
